@@ -163,7 +163,7 @@ prop("C02", level="exploration",
      stages=[
          dict(pkg="fullstack", test="TestC02Pinned", sub="pinned", race=True, cases=dict(quick=3, thorough=3), batch=1, timeout=1200),
          dict(pkg="fullstack", test="TestC02", sub="random", race=True, vary_gomaxprocs=True,
-              cases=dict(quick=600, thorough=10000), timeout=3600),
+              cases=dict(quick=600, thorough=6000), timeout=3600),
      ],
      technique="runtime monitoring: differential oracle - real requestor and responder instances on an instrumented fabric/store versus a two-store reference traversal (go-ipld-prime only); exact comparison of delivered nodes, missing-block errors and stored blocks; Go race detector",
      level_text=("Generated DAG x selector x store-split cases are executed end to end by two unmodified GraphSync instances (messages cross the "
@@ -178,7 +178,7 @@ prop("C02", level="exploration",
 
 prop("C23", level="exploration",
      stages=[
-         dict(pkg="fullstack", test="TestC23", race=True, vary_gomaxprocs=True, cases=dict(quick=300, thorough=4000), timeout=3600),
+         dict(pkg="fullstack", test="TestC23", race=True, vary_gomaxprocs=True, cases=dict(quick=300, thorough=3000), timeout=3600),
      ],
      technique="runtime monitoring: PeerState(...).Diagnostics() and Stats() sampled by the harness at constructed quiescent points (logical-step quiescence: no message in flight, no step advancing, all live traversals parked at store gates) of generated request histories with holds, releases, context cancels, API cancels, pauses/unpauses on both sides, partial responses and injected send failures; Go race detector",
      level_text=("Per case 3-8 requests from one requestor to 1-2 responders, with 1-3 outgoing and incoming workers, are driven through a generated history of 6-17 "
@@ -209,7 +209,7 @@ prop("C24", level="exploration",
 
 prop("C03", level="exploration",
      stages=[dict(pkg="fullstack", test="TestC03", sub="random", race=True, vary_gomaxprocs=True,
-                  cases=dict(quick=500, thorough=8000), timeout=3600)],
+                  cases=dict(quick=500, thorough=6000), timeout=3600)],
      technique="runtime monitoring: scripted raw requestor peer -> real responder; every response message recorded on the fabric is compared with reference model 2 (responder's own traversal + send rule written from the statement); store gates make overlapping requests deterministic; Go race detector",
      level_text=("A scripted raw peer sends requests (all combinations of do-not-send-cids, do-not-send-first-blocks incl. 0/1/k/total/total+5/negative, "
                  "dedup-by-key) to a real responder; the concatenated metadata must equal the responder's own traversal (link, present|missing) list, "
@@ -240,10 +240,10 @@ prop("C07", level="exploration",
 
 prop("C01", level="exploration",
      stages=[dict(pkg="fullstack", test="TestC01", sub="adversary", race=True, vary_gomaxprocs=True,
-                  cases=dict(quick=400, thorough=6000), timeout=3600),
+                  cases=dict(quick=400, thorough=4000), timeout=3600),
              # data streamed at a request whose loader is offline (paused) must not surface under another link later
              dict(pkg="fullstack", test="TestC01Stale", sub="stale", race=True, vary_gomaxprocs=True,
-                  cases=dict(quick=200, thorough=3000), timeout=3600)],
+                  cases=dict(quick=200, thorough=1500), timeout=3600)],
      technique="runtime monitoring: online hash monitor on every store commit + offline subsequence check of delivered nodes against the reference traversal of the true DAG, under a seeded man-in-the-middle adversary and a fully scripted raw responder; process survival; Go race detector",
      level_text=("A real requestor (random local subset of the true DAG) talks to (a) a real responder whose messages are rewritten by a seeded "
                  "man-in-the-middle applying 16 mutation operators (reorder/duplicate/drop/insert/substitute metadata, flipped actions, dropped, foreign, "
@@ -261,10 +261,10 @@ prop("C01", level="exploration",
 
 prop("C09", level="exploration",
      stages=[dict(pkg="fullstack", test="TestC09", sub="thirdparty", race=True, vary_gomaxprocs=True,
-                  cases=dict(quick=500, thorough=6000), timeout=3600),
+                  cases=dict(quick=500, thorough=4000), timeout=3600),
              # a caller-chosen request id re-used for another peer after a paused request was cancelled
              dict(pkg="fullstack", test="TestC09Reuse", sub="idreuse", race=True, vary_gomaxprocs=True,
-                  cases=dict(quick=100, thorough=1500), timeout=3600)],
+                  cases=dict(quick=100, thorough=1000), timeout=3600)],
      technique="runtime monitoring: hook-invocation monitor and outgoing wire-log monitor on the requestor plus differential outcome check (reference model 1) while a scripted third peer injects responses carrying the victim request id at chosen delivery positions; Go race detector",
      level_text=("An honest exchange (real requestor, real responder holding the whole DAG) runs while a raw third peer injects responses with the victim's "
                  "request id - every status code, honest-looking and garbage metadata, true and foreign blocks, extensions that make a realistic "
@@ -293,10 +293,10 @@ prop("C10", level="exploration",
 
 prop("C06", level="exploration",
      stages=[dict(pkg="fullstack", test="TestC06", sub="pause", race=True, vary_gomaxprocs=True,
-                  cases=dict(quick=700, thorough=10000), timeout=3600),
+                  cases=dict(quick=700, thorough=2100), timeout=3600),
              # the resume is sent by the requestor's response hook the moment it sees RequestPaused
              dict(pkg="fullstack", test="TestC06", sub="reactive", race=True, vary_gomaxprocs=True,
-                  cases=dict(quick=200, thorough=3000), timeout=3600)],
+                  cases=dict(quick=200, thorough=600), timeout=3600)],
      technique="runtime monitoring: differential outcome check (reference model 1) of exchanges paused and resumed on either side via API or hooks at every block index and resume timing, plus a wire-log monitor for data sent while a response is paused; Go race detector",
      level_text=("C02-style cases are run with one pause: requestor API, requestor incoming-block hook, responder API, responder outgoing-block hook, responder "
                  "request hook (start paused) resumed by API or by an update hook, responder outgoing-block hook resumed by an update the requestor's response hook sends the moment it sees RequestPaused (stage reactive, with a widened window before the executor reports its task finished); at a random block index; resumed after quiescence, immediately (retrying "
@@ -387,7 +387,7 @@ prop("C11", level="exploration",
 
 prop("C12", level="exploration",
      stages=[
-         dict(pkg="wire", test="TestFuzzDecode", sub="decode", race=True, cases=dict(quick=50000, thorough=2000000), timeout=7200),
+         dict(pkg="wire", test="TestFuzzDecode", sub="decode", race=True, cases=dict(quick=50000, thorough=1000000), timeout=7200),
          # live node on mocknet: one child process per 200 inputs, journal written before every input
          dict(pkg="wire", test="TestStreamFuzz", sub="stream", race=True, cases=dict(quick=3000, thorough=60000), batch=200, timeout=3600),
      ],
@@ -405,7 +405,7 @@ prop("C12", level="exploration",
 
 prop("C20", level="exploration",
      stages=[dict(pkg="fullstack", test="TestC20", sub="concurrent", race=True, vary_gomaxprocs=True,
-                  cases=dict(quick=400, thorough=6000), timeout=3600)],
+                  cases=dict(quick=400, thorough=2400), timeout=3600)],
      technique="runtime monitoring: 2-5 concurrent requests between one real requestor and one real responder over overlapping / disjoint DAGs with per-request speed skew (block-hook delays, link jitter, yield-point perturbation); each request's delivered nodes compared with its stand-alone reference traversal, final store checked for every loaded block; Go race detector",
      level_text=("Classes: overlapping DAGs in the default scope, overlapping DAGs under one shared explicit dedup key (half of the same-scope cases with a one-worker responder), overlapping DAGs with distinct dedup keys, disjoint DAGs, overlapping DAGs whose shared blocks the "
                  "requestor already holds. The responder holds everything, so each request's stand-alone result is the full traversal of its (sub-)DAG with "
@@ -418,7 +418,7 @@ prop("C20", level="exploration",
 
 prop("C04", level="fault_enumeration",
      stages=[dict(pkg="fullstack", test="TestC04", sub="termination", race=True, vary_gomaxprocs=True,
-                  cases=dict(quick=640, thorough=12000), timeout=3600)],
+                  cases=dict(quick=640, thorough=2560), timeout=3600)],
      technique="runtime monitoring: consumer-side channel monitors (closed-by-quiescence as bounded liveness, error identity) and a wire-log monitor for the Cancel message, over enumerated trigger kinds x logical positions (fabric gates) x responder kinds (real / scripted with every terminal code / silent) x extras (pause, hook errors, injected send failures); process crash = send on closed channel; Go race detector",
      level_text=("Small DAGs; trigger in {terminal status delivered, context cancel, cancel API} x position in {immediately, while queued (single worker occupied), "
                  "after j response messages with the responder then held by a fabric gate, after terminal delivery} x responder in {real, scripted with each of "
@@ -469,8 +469,8 @@ prop("C22", level="fault_enumeration",
 
 prop("C25", level="fault_enumeration",
      stages=[
-         dict(pkg="fullstack", test="TestC25", sub="responder", race=True, vary_gomaxprocs=True, cases=dict(quick=200, thorough=2500), timeout=3600),
-         dict(pkg="fullstack", test="TestC25", sub="requestor", race=True, vary_gomaxprocs=True, cases=dict(quick=200, thorough=2500), timeout=3600),
+         dict(pkg="fullstack", test="TestC25", sub="responder", race=True, vary_gomaxprocs=True, cases=dict(quick=200, thorough=1500), timeout=3600),
+         dict(pkg="fullstack", test="TestC25", sub="requestor", race=True, vary_gomaxprocs=True, cases=dict(quick=200, thorough=1500), timeout=3600),
      ],
      technique="runtime monitoring: fault injection in the in-memory network (one peer's connection stalled indefinitely so its per-peer memory allowance fills / a responder that goes silent mid-response) while healthy peers run hook-, extension-, update- and pause-driven exchanges; oracle: at logical quiescence (no step advancing, stall still in place) every healthy request has completed and equals its reference outcome; mailbox barrier detects a blocked manager goroutine; Go race detector",
      level_text=("sub responder: a raw peer S sends 1..W+1 requests over DAGs larger than its allowance while the link responder->S is stalled, then performs 0-4 further actions "
@@ -486,9 +486,9 @@ prop("C25", level="fault_enumeration",
 
 prop("C21", level="exploration",
      stages=[
-         dict(pkg="taskq", test="TestC21Queue", sub="queue", race=True, vary_gomaxprocs=True, cases=dict(quick=1500, thorough=30000), timeout=3600),
-         dict(pkg="fullstack", test="TestC21", sub="incoming", race=True, vary_gomaxprocs=True, cases=dict(quick=200, thorough=3000), timeout=3600),
-         dict(pkg="fullstack", test="TestC21", sub="outgoing", race=True, vary_gomaxprocs=True, cases=dict(quick=200, thorough=3000), timeout=3600),
+         dict(pkg="taskq", test="TestC21Queue", sub="queue", race=True, vary_gomaxprocs=True, cases=dict(quick=1500, thorough=20000), timeout=3600),
+         dict(pkg="fullstack", test="TestC21", sub="incoming", race=True, vary_gomaxprocs=True, cases=dict(quick=200, thorough=2000), timeout=3600),
+         dict(pkg="fullstack", test="TestC21", sub="outgoing", race=True, vary_gomaxprocs=True, cases=dict(quick=200, thorough=2000), timeout=3600),
      ],
      technique="runtime monitoring: (queue) instrumented Executor on the real WorkerTaskQueue counting concurrent ExecuteTask invocations per queue and per peer, exactly-once and bounded-progress monitors over generated arrival patterns with gated task durations; (incoming/outgoing) end-to-end: traversals parked at per-DAG store gates / raw responders that answer on command, concurrency and work-conservation oracles at logical-quiescence snapshots; Go race detector",
      level_text=("queue: W in {1,2,3,6} workers, per-peer limit unset/1/2 (configured as impl.New configures the response queue), 2-6 peers, 15-55 steps of {burst push (one flooding peer), "
@@ -503,3 +503,28 @@ prop("C21", level="exploration",
      min_nontrivial=dict(quick=1500, thorough=30000),
      min_counters=dict(cases_reaching_worker_limit=dict(quick=800, thorough=15000), cases_reaching_per_peer_limit=dict(quick=300, thorough=5000)),
      assumptions=_fs_assume)
+
+
+# ---------------------------------------------------------------- vacuity thresholds of the thorough tier
+# The quick thresholds are calibrated against observed quick runs. The thorough thresholds are derived from them:
+# scaled by half of the smallest per-stage growth factor, never below the quick threshold.
+def _normalise_thorough_thresholds():
+    for pid, spec in PROPS.items():
+        ratios = []
+        for st in spec["stages"]:
+            c = st["cases"]
+            if isinstance(c, dict) and c.get("quick", 0) > 0 and c.get("thorough", 0) > 0:
+                ratios.append(c["thorough"] / c["quick"])
+        r = min(ratios) if ratios else 1.0
+
+        def scale(q):
+            return max(q, int(q * r * 0.5))
+        mn = spec.get("min_nontrivial")
+        if isinstance(mn, dict) and "quick" in mn:
+            mn["thorough"] = scale(mn["quick"])
+        for name, need in (spec.get("min_counters") or {}).items():
+            if isinstance(need, dict) and "quick" in need:
+                need["thorough"] = scale(need["quick"])
+
+
+_normalise_thorough_thresholds()
